@@ -160,6 +160,23 @@ func checkC09Run(h *HistSpec) Result {
 	if err != nil {
 		return fail(err)
 	}
+	// results read in the middle of the history and looked at after it: they
+	// still are what the model says of their prefix
+	var held []redact.RedactableString
+	if _, err := runOnSB(h.Ops, h.Grow, func(i int, sb *redact.StringBuilder) error {
+		held = append(held, sb.RedactableString())
+		return nil
+	}); err != nil {
+		return fail(err)
+	}
+	for i, r := range held {
+		if skip(i) {
+			continue
+		}
+		if err := checkAgainst(fmt.Sprintf("StringBuilder.RedactableString() read after op %d, looked at after op %d", i, len(h.Ops)-1), models[i], []byte(r)); err != nil {
+			return fail(err)
+		}
+	}
 	// ManualBuffer: every prefix
 	outMB, err := runOnMB(h.Ops, h.Grow, func(i int, mb *redact.ManualBuffer) error {
 		if skip(i) {
